@@ -219,6 +219,7 @@ func runSelftest(r *Run, repo string, _ []Finding) map[string]any {
 	if err != nil {
 		return map[string]any{"failed": 1, "error": err.Error()}
 	}
+	seeded := loadSeeded(r.Prop)
 	results := make([]variantResult, len(vs))
 	sem := make(chan struct{}, 6)
 	var wg sync.WaitGroup
@@ -230,6 +231,16 @@ func runSelftest(r *Run, repo string, _ []Finding) map[string]any {
 			defer func() { <-sem }()
 			results[i] = runVariant(v, repo, self, "/verif/known_findings.json")
 		}(i, v)
+	}
+	seedResults := make([]variantResult, len(seeded))
+	for i, sd := range seeded {
+		wg.Add(1)
+		go func(i int, sd seededChange) {
+			defer wg.Done()
+			sem <- struct{}{}
+			defer func() { <-sem }()
+			seedResults[i] = runSeeded(sd, repo, self, "/verif/known_findings.json")
+		}(i, sd)
 	}
 	wg.Wait()
 	var detected, silent, skipped, failed int
@@ -247,6 +258,112 @@ func runSelftest(r *Run, repo string, _ []Finding) map[string]any {
 			fmt.Printf("selftest %s %s: %s %s\n", x.ID, x.Kind, x.Outcome, x.Detail)
 		}
 	}
+	seedDetected, seedMissed := 0, 0
+	for _, x := range seedResults {
+		switch x.Outcome {
+		case "detected":
+			seedDetected++
+		case "undetected-documented":
+			seedMissed++
+		case "skipped":
+			skipped++
+			fmt.Printf("seeded-skipped %s: %s\n", x.ID, x.Detail)
+		default:
+			failed++
+			fmt.Printf("seeded %s: %s %s\n", x.ID, x.Outcome, x.Detail)
+		}
+	}
 	return map[string]any{"variants": len(vs), "breaking_detected": detected, "benign_silent": silent,
-		"skipped": skipped, "failed": failed, "results": results}
+		"skipped": skipped, "failed": failed, "results": results,
+		"seeded_changes": len(seeded), "seeded_detected": seedDetected, "seeded_undetected_documented": seedMissed, "seeded_results": seedResults}
+}
+
+// seededChange is an independently written change (sub-agent) kept under /verif/seeded/<id>/.
+type seededChange struct {
+	ID        string   `json:"id"`
+	Property  string   `json:"property"`
+	Expect    string   `json:"expect"` // detected | undetected
+	ExpectKey string   `json:"expect_key,omitempty"`
+	Needs     string   `json:"needs,omitempty"`
+	Breaks    string   `json:"breaks,omitempty"`
+	Limit     string   `json:"limit,omitempty"`
+	Dir       string   `json:"-"`
+	Ran       []string `json:"ran,omitempty"`
+}
+
+func loadSeeded(prop string) []seededChange {
+	root := "/verif/seeded"
+	ents, err := os.ReadDir(root)
+	if err != nil {
+		return nil
+	}
+	var out []seededChange
+	for _, e := range ents {
+		b, err := os.ReadFile(filepath.Join(root, e.Name(), "meta.json"))
+		if err != nil {
+			continue
+		}
+		var sc seededChange
+		if json.Unmarshal(b, &sc) != nil || sc.Property != prop {
+			continue
+		}
+		sc.Dir = filepath.Join(root, e.Name())
+		out = append(out, sc)
+	}
+	sort.Slice(out, func(i, j int) bool { return out[i].ID < out[j].ID })
+	return out
+}
+
+func runSeeded(sc seededChange, repo, self, knownPath string) variantResult {
+	res := variantResult{ID: sc.ID, Kind: "seeded"}
+	tmp, err := os.MkdirTemp("", "fibercheck-seed-")
+	if err != nil {
+		res.Outcome, res.Detail = "error", err.Error()
+		return res
+	}
+	defer os.RemoveAll(tmp)
+	work := filepath.Join(tmp, "repo")
+	if err := copyTree(repo, work); err != nil {
+		res.Outcome, res.Detail = "error", err.Error()
+		return res
+	}
+	ap := exec.Command("git", "apply", filepath.Join(sc.Dir, "patch.diff"))
+	ap.Dir = work
+	if out, err := ap.CombinedOutput(); err != nil {
+		res.Outcome, res.Detail = "skipped", "patch no longer applies to the current tree: "+firstLine(string(out))
+		return res
+	}
+	cmd := exec.Command(self, "-repo", work, "-out", filepath.Join(tmp, "ev"), "-known", knownPath, "-tier", "quick", sc.Property)
+	cmd.Env = append(os.Environ(), "VERIF_SELFTEST_CHILD=1")
+	outb, err := cmd.CombinedOutput()
+	out := string(outb)
+	code := 0
+	if ee, ok := err.(*exec.ExitError); ok {
+		code = ee.ExitCode()
+	}
+	if strings.Contains(out, "load error:") {
+		res.Outcome, res.Detail = "error", firstLine(out)
+		return res
+	}
+	named := false
+	for _, ln := range strings.Split(out, "\n") {
+		if strings.Contains(ln, "["+sc.Property+" ") && (sc.ExpectKey == "" || strings.Contains(ln, sc.ExpectKey)) {
+			named = true
+		}
+	}
+	switch sc.Expect {
+	case "detected":
+		if code == 1 && named {
+			res.Outcome = "detected"
+		} else {
+			res.Outcome, res.Detail = "MISSED", fmt.Sprintf("exit=%d named=%v", code, named)
+		}
+	default:
+		if code == 0 {
+			res.Outcome, res.Detail = "undetected-documented", sc.Limit
+		} else {
+			res.Outcome, res.Detail = "UNEXPECTED-ALARM", firstViolation(out)
+		}
+	}
+	return res
 }
